@@ -61,7 +61,7 @@ def noop_layer(rng, spec, kind):
         bb = cc._outside(rng, W, H, rng.randint(1, 3), rng.randint(1, 3), rng.randrange(4))
         npx = (bb[2] - bb[0]) * (bb[3] - bb[1])
         n.update({"bbox": bb, "alpha": [255] * npx, "color": [[rng.choice(cc.LATTICE)] * npx for _ in range(nch)], "mask": None})
-    return n
+    return cc.node_to_depth(rng, spec, n, True)
 
 
 def insert_noop(rng, spec, kind):
@@ -564,6 +564,9 @@ def run():
     model_cases = []
     for i in range(ndocs):
         spec = cc.gen_doc(ck.rng, ALL_MODES if i % 4 else MODEL_MODES, p_noalpha=0.04)
+        if ck.rng.random() < 0.2:
+            spec = cc.to_depth(ck.rng, spec, ck.rng.choice([16, 32]), i % 4 == 0 or ck.rng.random() < 0.3)
+        ck.count("depth:%d" % spec.get("depth", 8))
         col, al = cc.gen_backdrop(ck.rng, cc.NCH[spec["mode"]])
         ck.count("mode:" + spec["mode"] + ("+A" if spec["docalpha"] else ""))
         try:
